@@ -82,5 +82,6 @@ func TestPropConcurrentCodec(t *testing.T) {
 		ev.EvalN(int64(workers * reps))
 		ev.NonTrivial(fmt.Sprintf("concurrent:%d:%d:%q", workers, reps, names))
 		ev.Class(fmt.Sprintf("concurrent-codec:workers=%d", workers))
+		ev.Sample(fmt.Sprintf("%d goroutines x %d repetitions, e.g. %q <-> %q", workers, reps, names[0][0], refutf7.Encode(names[0][0])))
 	})
 }
